@@ -411,8 +411,9 @@ def decide_and_report(chk, replay_mode=False):
         ev["coverage"]["discharged"] = 0
         ev["coverage"]["obligations"] = max(ev["coverage"]["obligations"], 1)
     if not replay_mode:
-        os.makedirs(os.path.join(VERIF, "evidence"), exist_ok=True)
-        json.dump(ev, open(os.path.join(VERIF, "evidence", pid + ".json"), "w"), indent=1)
+        evdir = os.environ.get("VERIF_EVIDENCE_DIR") or os.path.join(VERIF, "evidence")
+        os.makedirs(evdir, exist_ok=True)
+        json.dump(ev, open(os.path.join(evdir, pid + ".json"), "w"), indent=1)
     if violations == 0:
         print("OK property=%s tier=%s seed=%d theorems=%d cases=%d nontrivial=%d wall=%.1fs" % (pid, chk.tier, chk.seed, ob, chk.evals, chk.distinct_nontrivial, time.time() - chk.t0))
     if not os.environ.get("VERIF_KEEP"):
